@@ -39,14 +39,18 @@ fn behave() -> Box<dyn FnMut(usize, &Cb) -> Behavior> {
 
 /// the only oracle of this property: no panic, no wedge; Ok implies everything was flushed
 fn judge(stream: Vec<u8>, what: &str, st: &mut Stats) -> Result<(), Violation> {
+    judge_cuts(stream, vec![], what, st)
+}
+
+fn judge_cuts(stream: Vec<u8>, cuts: Vec<usize>, what: &str, st: &mut Stats) -> Result<(), Violation> {
     let stream = Arc::new(stream);
-    let mut sim = sim_for(&stream, vec![]);
+    let mut sim = sim_for(&stream, cuts);
     sim.log_ops = false;
     sim.max_ops = 200_000;
     let o = run_conn(sim, ConnCfg::new(behave()));
     st.transitions += (o.sim.n_reads + o.sim.n_writes) as u64;
     match &o.res {
-        ConnResult::Panic(l, m) => return Err(Violation::new(panic_key(l, m), format!("{}: run_on panicked at {}: {}", what, l, m)).with(json!({"stream_hex": hex(&stream)}))),
+        ConnResult::Panic(l, m) => return Err(Violation::new(panic_key(l, m), format!("{}: run_on panicked at {}: {}", what, l, m)).with(json!({"stream_hex": hex(&stream[..stream.len().min(600)])}))),
         ConnResult::Ok => {
             st.bump("outcome_ok");
             if o.sim.flushed != o.sim.out.len() {
@@ -438,6 +442,179 @@ impl Family for FragmentIds {
     }
 }
 
+
+/// length prefixes of variable-length parameter values: every length-encoding form with
+/// announced lengths from 0 to 2^64-1 (far more than the packet holds), truncated prefixes, and
+/// every length byte 0..255 for the temporal types, followed by 0..300 bytes of data
+struct LenencExtremes;
+const VAR_TYPES: [u8; 18] = [0x00, 0x0f, 0x10, 0xf5, 0xf6, 0xf7, 0xf8, 0xf9, 0xfa, 0xfb, 0xfc, 0xfd, 0xfe, 0xff, 0x07, 0x0a, 0x0b, 0x0c];
+impl LenencExtremes {
+    fn prefixes() -> Vec<Vec<u8>> {
+        let mut v: Vec<Vec<u8>> = Vec::new();
+        for b in 0..=255u8 {
+            v.push(vec![b]);
+        }
+        for x in [0u16, 1, 250, 251, 0x7fff, 0x8000, 0xffff] {
+            let mut p = vec![0xfc];
+            p.extend_from_slice(&x.to_le_bytes());
+            v.push(p);
+        }
+        for x in [0u32, 1, 0xffff, 0x10000, 0x7fffff, 0xffffff] {
+            let mut p = vec![0xfd];
+            p.extend_from_slice(&x.to_le_bytes()[..3]);
+            v.push(p);
+        }
+        let mut big: Vec<u64> = vec![0, 1, 250, 1 << 16, 1 << 24, (1 << 32) - 1, 1 << 32, (1 << 63) - 1, 1 << 63];
+        for d in 0..=24u64 {
+            big.push(u64::MAX - d);
+        }
+        for x in big {
+            let mut p = vec![0xfe];
+            p.extend_from_slice(&x.to_le_bytes());
+            v.push(p);
+        }
+        // truncated multi-byte prefixes
+        for (lead, n) in [(0xfcu8, 2usize), (0xfd, 3), (0xfe, 8)] {
+            for k in 0..n {
+                let mut p = vec![lead];
+                p.extend(std::iter::repeat(0xff).take(k));
+                v.push(p);
+            }
+        }
+        v
+    }
+    const AVAIL: [usize; 5] = [0, 1, 7, 12, 300];
+    fn case(idx: u64) -> (u8, Vec<u8>, usize, bool) {
+        let pf = Self::prefixes();
+        let d = digits(idx, &[VAR_TYPES.len() as u64, pf.len() as u64, Self::AVAIL.len() as u64, 2]);
+        (VAR_TYPES[d[0] as usize], pf[d[1] as usize].clone(), Self::AVAIL[d[2] as usize], d[3] == 1)
+    }
+}
+impl Family for LenencExtremes {
+    fn name(&self) -> String {
+        "execute-value-length-prefixes".into()
+    }
+    fn len(&self) -> u64 {
+        (VAR_TYPES.len() * Self::prefixes().len() * Self::AVAIL.len() * 2) as u64
+    }
+    fn run(&self, idx: u64, st: &mut Stats) -> Result<(), Violation> {
+        let (ty, pf, avail, two) = Self::case(idx);
+        st.nontrivial += 1;
+        st.bump("length_prefix_cases");
+        let n = if two { 2 } else { 1 };
+        // NULL bitmap, bind flag, type table, then the value under test (+ a LONG for the second)
+        let mut b = vec![0u8, 1, ty, 0];
+        if two {
+            b.extend_from_slice(&[0x03, 0]);
+        }
+        b.extend_from_slice(&pf);
+        b.extend((0..avail).map(|i| b'a' + (i % 26) as u8));
+        if two {
+            b.extend_from_slice(&[1, 0, 0, 0]);
+        }
+        let mut s = prefix(n);
+        s.extend_from_slice(&frame(0, &cmd_execute(1, 0, 1, &b)).0);
+        s.extend_from_slice(&frame(0, &[COM_PING]).0);
+        judge(s, &format!("type {:#04x}, length prefix {}, {} data bytes, {} parameter(s)", ty, hex(&pf), avail, n), st)
+    }
+    fn describe(&self, idx: u64) -> J {
+        let (ty, pf, avail, two) = Self::case(idx);
+        json!({"type": format!("{:#04x}", ty), "length_prefix_hex": hex(&pf), "data_bytes_present": avail, "declared_params": if two { 2 } else { 1 }})
+    }
+}
+
+/// requests of 2^24-1 bytes and more (well-formed and with a damaged continuation) whose reads
+/// end at every position around each packet header and at the end of the stream
+struct LargeInputs {
+    cases: Vec<(usize, u8, usize)>, // (payload size, damage, cut position; 0 = none)
+}
+impl LargeInputs {
+    fn stream(size: usize, damage: u8) -> (Vec<u8>, Vec<usize>) {
+        let mut payload = vec![COM_QUERY];
+        payload.resize(size, b'y');
+        let (mut f, _) = frame(0, &payload);
+        let hs = default_handshake();
+        let mut headers = Vec::new();
+        let mut off = 0;
+        while off < f.len() {
+            headers.push(hs.len() + off);
+            let n = f[off] as usize | (f[off + 1] as usize) << 8 | (f[off + 2] as usize) << 16;
+            off += 4 + n;
+        }
+        match damage {
+            1 => {
+                // the closing packet is missing: the stream ends after the last maximal packet
+                let last = *headers.last().unwrap() - hs.len();
+                f.truncate(last);
+                headers.pop();
+            }
+            2 => {
+                // the continuation announces more than follows
+                let last = *headers.last().unwrap() - hs.len();
+                f[last] = 0xff;
+                f[last + 1] = 0x7f;
+            }
+            _ => {}
+        }
+        let mut s = hs;
+        s.extend_from_slice(&f);
+        if damage == 0 {
+            s.extend_from_slice(&frame(0, &[COM_PING]).0);
+        }
+        (s, headers)
+    }
+    fn new(sizes: &[usize]) -> Self {
+        let mut cases = Vec::new();
+        for &size in sizes {
+            for damage in 0..3u8 {
+                let (s, headers) = Self::stream(size, damage);
+                cases.push((size, damage, 0));
+                let mut cands = Vec::new();
+                for h in headers.iter().skip(1) {
+                    for d in -1i64..=5 {
+                        cands.push((*h as i64 + d) as usize);
+                    }
+                }
+                for d in 1..=5 {
+                    cands.push(s.len() - d);
+                }
+                cands.sort();
+                cands.dedup();
+                for c in cands {
+                    if c > 0 && c < s.len() {
+                        cases.push((size, damage, c));
+                    }
+                }
+            }
+        }
+        LargeInputs { cases }
+    }
+}
+impl Family for LargeInputs {
+    fn name(&self) -> String {
+        "large-requests-read-boundaries".into()
+    }
+    fn len(&self) -> u64 {
+        self.cases.len() as u64
+    }
+    fn max_threads(&self) -> Option<usize> {
+        Some(8)
+    }
+    fn run(&self, idx: u64, st: &mut Stats) -> Result<(), Violation> {
+        let (size, damage, cut) = self.cases[idx as usize];
+        st.nontrivial += 1;
+        st.bump("large_inputs");
+        let (s, _) = Self::stream(size, damage);
+        let cuts = if cut == 0 { vec![] } else { vec![cut] };
+        judge_cuts(s, cuts, &format!("request of {} payload bytes, {}, read boundary at {}", size, ["well-formed", "closing packet missing", "continuation announces more than follows"][damage as usize], cut), st)
+    }
+    fn describe(&self, idx: u64) -> J {
+        let (size, damage, cut) = self.cases[idx as usize];
+        let dmg = ["none", "closing packet missing", "continuation announces more than follows"][damage as usize];
+        json!({"request_payload_bytes": size, "damage": dmg, "read_boundary_at": cut})
+    }
+}
+
 pub fn build(quick: bool) -> Check {
     let mut families: Vec<Box<dyn Family>> = Vec::new();
     for l in 1..=(if quick { 5 } else { 7 }) {
@@ -476,13 +653,15 @@ pub fn build(quick: bool) -> Check {
             headers: vec![0, hs.len()],
         }));
     }
+    families.push(Box::new(LenencExtremes));
+    families.push(Box::new(LargeInputs::new(if quick { &[MAXP, MAXP + 7] } else { &[MAXP - 1, MAXP, MAXP + 7, 2 * MAXP, 2 * MAXP + 7] })));
     families.push(Box::new(FragmentIds {
         ids: if quick { vec![0, 1, 255] } else { vec![0, 1, 2, 127, 254, 255] },
     }));
     Check {
         id: "C20",
         level: "model_checking",
-        rule: "client byte strings: all raw strings of length <= 5/7 over a 13-symbol alphabet of command and marker bytes (after handshake+PREPARE, and as the handshake itself); all framed payloads of length <= 2/3 over all 256 byte values; COM_STMT_EXECUTE parameter blocks (4 bitmaps x 3 flags x 256 type codes x unsigned x values of <= 3 bytes over 6 marker bytes, with and without a preceding valid bind; 1/2/9 declared parameters); every prefix of well-formed bind and reuse blocks x NULL bitmaps x pending long data x earlier bind; for 5 valid conversations and 3 handshake forms every single-byte substitution by every value (this includes every sequence id 0..255 and every length-field value on every packet), every truncation, deletion and duplication; two-fragment requests with every pair of fragment ids from a boundary set. Oracle: run_on returns (Ok or Err) without panicking and within 200000 transport operations; flushed output is well-framed. Non-trivial = input differs from a valid conversation.".into(),
+        rule: "client byte strings: all raw strings of length <= 5/7 over a 13-symbol alphabet of command and marker bytes (after handshake+PREPARE, and as the handshake itself); all framed payloads of length <= 2/3 over all 256 byte values; COM_STMT_EXECUTE parameter blocks (4 bitmaps x 3 flags x 256 type codes x unsigned x values of <= 3 bytes over 6 marker bytes, with and without a preceding valid bind; 1/2/9 declared parameters); every prefix of well-formed bind and reuse blocks x NULL bitmaps x pending long data x earlier bind; for 5 valid conversations and 3 handshake forms every single-byte substitution by every value (this includes every sequence id 0..255 and every length-field value on every packet), every truncation, deletion and duplication; two-fragment requests with every pair of fragment ids from a boundary set; variable-length parameter values behind every length-prefix form announcing 0..2^64-1 bytes (and every length byte for the temporal types) with 0..300 bytes present; requests of 2^24-1 bytes and more, well-formed or with a missing / lying continuation, under a read boundary at every position around each packet header and the end of the stream. Oracle: run_on returns (Ok or Err) without panicking and within 200000 transport operations; flushed output is well-framed. Non-trivial = input differs from a valid conversation.".into(),
         assumptions: vec![
             "random bytes are not used as a deciding step (sampling is outside this family)".into(),
             "the shim iterates all parameters and reads them with into_inner(); the panicking From<Value> conversions are the shim author's calls, not run_on's".into(),
@@ -491,6 +670,6 @@ pub fn build(quick: bool) -> Check {
         exhaustive: true,
         caps_hit: vec![],
         families,
-        required: vec!["outcome_ok", "outcome_err", "executes_reaching_the_shim", "sequence_id_mutations", "length_field_mutations", "out_of_order_fragments", "block_prefixes"],
+        required: vec!["length_prefix_cases", "large_inputs", "outcome_ok", "outcome_err", "executes_reaching_the_shim", "sequence_id_mutations", "length_field_mutations", "out_of_order_fragments", "block_prefixes"],
     }
 }
